@@ -750,15 +750,29 @@ impl Formatter {
         </div>", block_id, block_class, style_attr, namespace_str, src, output_node)
       }
     } else {
-      // info string first (`:disabled` or `:<namespace>`), then the code, then the closing fence
+      // info string first (`:disabled`, `:hidden` or `:<namespace>`, then the option map), then the code, then the closing fence
       let tag = if block.config.disabled {
         format!(":{}", disabled_tag)
+      } else if block.config.hidden {
+        ":hidden".to_string()
       } else if !namespace_str.is_empty() {
         format!(":{}", namespace_str)
       } else {
         "".to_string()
       };
-      format!("```mech{}\n{}```\n", tag, src)
+      let options = match &block.options {
+        Some(option_map) if !option_map.elements.is_empty() => {
+          let mut parts = Vec::new();
+          for (k, v) in &option_map.elements {
+            let value = v.text.to_string();
+            let plain = !value.is_empty() && value.chars().all(|c| c.is_alphanumeric() || c == '_' || c == '-');
+            parts.push(format!("{}: {}", k.to_string(), if plain { value } else { self.string(v) }));
+          }
+          format!("{{{}}}", parts.join(", "))
+        }
+        _ => "".to_string(),
+      };
+      format!("```mech{}{}\n{}```\n", tag, options, src)
     }
   }
 
